@@ -1220,7 +1220,7 @@ after `let rest = self.rest();`:
             broadcast use axiom_slice_len_bound; assert(self.tokens@.len() <= usize::MAX);
             lemma_vals_as_ref(rest@);
         }
-after `let s = &rest[..pos];`:
+after `let s = &rest[..pos];` or after `.position(|t| f(t.kind))?;`:
         proof { lemma_sub_ok(rest@, 0, pos as int); assert(rest@.subrange(0, pos as int) =~= self.toks().subrange(self.cur(), self.cur() + pos)); }
 @*/
 /*@ fn src/parser/block_parser.rs BlockParser::consume_while
@@ -1240,7 +1240,7 @@ after `let rest = self.rest();`:
             broadcast use axiom_slice_len_bound; assert(self.tokens@.len() <= usize::MAX);
             lemma_vals_as_ref(rest@);
         }
-after `let s = &rest[..pos];`:
+after `let s = &rest[..pos];` or after `.unwrap_or(rest.len());`:
         proof { lemma_sub_ok(rest@, 0, pos as int); assert(rest@.subrange(0, pos as int) =~= self.toks().subrange(self.cur(), self.cur() + pos)); }
 @*/
 /*@ fn src/parser/block_parser.rs BlockParser::ws_comments
